@@ -1277,6 +1277,14 @@ def gen_conv_cases(seed, tier, consts, loc):
                     s1 = fb + mb(rest) + b'\0'; s2 = b'xyz\0'
                     n[0] += 1; cs.append(vlib.Case('v%d' % n[0], 'mbsrtowcs_seq', [('R', fam_copy.garbage(rng, 4 * 8)), ('R', fam_copy.garbage(rng, 4 * 8)), ('R', s1), ('R', s2)],
                                                    [(0, 0), (1, 0), 8, (2, 0), k, (3, 0), 7, UNK], dict(cls='conv', func='mbsrtowcs_seq', loc=loc, op='seq', kind='seq', first=first, k=k, rest=rest)))
+        # wcrtomb_s entered with such a state: it must leave the state as the C library's wcrtomb leaves it (L'\\0' returns it to initial)
+        for first in (0xe9, 0x20ac, 0x10348):
+            fb = chr(first).encode('utf-8')
+            for k in range(1, len(fb)):
+                for wc in (0, 0x61, 0x20ac):
+                    for dmax in (1, 2, 8):
+                        n[0] += 1; cs.append(vlib.Case('v%d' % n[0], 'wcrtomb_seq', [('R', fam_copy.garbage(rng, 8)), ('R', fb + b'\0')], [(0, 0), dmax, (1, 0), k, wc, UNK],
+                                                       dict(cls='conv', func='wcrtomb_seq', loc=loc, op='wseq', kind='seq', first=first, k=k, wc=wc, dmax=dmax)))
     for bad in (invalid_mb if loc == 'u8' else [b'\x80', b'\xe9']):
         for pre in ([], [0x61]):
             src = mb(pre) + bad + b'a\0'
@@ -1284,6 +1292,11 @@ def gen_conv_cases(seed, tier, consts, loc):
     for badwc in ([0xd800, 0xdfff] if loc == 'u8' else [0x80, 0x20ac]):
         for pre in ([], [0x61]):
             add('wcstombs_s', [('R', ret8), ('R', fam_copy.garbage(rng, 16)), ('R', fam_copy.enc(pre + [badwc, 0x61, 0], 4))], [(0, 0), (1, 0), 16, (2, 0), 12, UNK], op='wcstombs', chars=pre, dmax=16, len=12, kind='invalid', valid=False, objelems=16)
+    # errno left non-zero by some earlier call (e.g. EILSEQ from a rejected conversion) must not change the outcome of a valid call
+    for x in list(cs):
+        if x.meta.get('kind') in ('query', 'ok') and x.meta.get('valid') and x.meta.get('op') in ('mbstowcs', 'wcstombs', 'mbsrtowcs', 'wcsrtombs') and (x.meta['kind'] == 'query' or rng.random() < 0.15):
+            n[0] += 1; m2 = dict(x.meta); m2['errno_on_entry'] = 84
+            cs.append(vlib.Case('v%d' % n[0], x.func, x.blocks, list(x.args) + ['E84'], m2))
     # single characters
     st = b'\0' * 16
     for wc in chars + [0, 0x7f] + ([0x80, 0x7ff, 0x800, 0xffff, 0x10000, 0x10ffff, 0xd800] if loc == 'u8' else [0x80]):
@@ -1312,8 +1325,17 @@ def check_C15(rep, scr, tier, seed):
                 fails = []
                 if a.fault != '-': fails.append(('fault', 'faulted at %s' % a.fault))
                 else:
-                    if m['op'] == 'seq':
+                    if m['op'] in ('seq', 'wseq'):
                         v = [int(t) for t in a.ret.split(',')]
+                        if m['op'] == 'wseq':
+                            # rc, retval, init | libc count, libc init | same bytes, same state
+                            fits = 0 <= v[3] < m['dmax']     # the function wants room behind the character (its documented success condition)
+                            if fits and (not v[5] or v[2] != v[4] or not v[6]):
+                                fails.append(('state-after-wcrtomb', 'wcrtomb_s(wc=%#x, dmax %d) entered with the state left by mbrtowc(%d of %d bytes of U+%04X): rc/count %s,%s, state initial afterwards: %s; the C library: count %s, state initial afterwards: %s; same bytes: %s, same state: %s'
+                                              % (m['wc'], m['dmax'], m['k'], len(chr(m['first']).encode('utf-8')), m['first'], v[0], v[1], v[2], v[3], v[4], v[5], v[6])))
+                            for kind, text in fails:
+                                rep.violation('%s(%s,%s): %s' % (m['func'], locname, var, text), {'key': (m['func'], kind, loc), 'property': 'C15', 'function': 'wcrtomb_s', 'locale': locname, 'failure': kind, 'case': x.to_json(), 'case_line': x.line(), 'impl_outcome': a.raw})
+                            continue
                         if v[0] != 0 or v[2] != 0 or v[1] != v[5] or v[3] != v[6] or v[4] != v[7] or not v[8] or not v[9]:
                             fails.append(('state-sequence', 'mbrtowc(%d of %d bytes of U+%04X) ; mbsrtowcs_s(rest) ; mbsrtowcs_s("xyz") with one state gave rc/count %s,%s then %s,%s (state initial: %s); the C library gives counts %s then %s (state initial: %s), results equal: %s %s'
                                           % (m['k'], len(chr(m['first']).encode('utf-8')), m['first'], v[0], v[1], v[2], v[3], v[4], v[5], v[6], v[7], v[8], v[9])))
